@@ -12,6 +12,7 @@ import (
 	"math/rand"
 	"strings"
 
+	"github.com/icon-project/goloop/common/codec"
 	"github.com/icon-project/goloop/consensus"
 
 	"verif/lib/ev"
@@ -22,19 +23,22 @@ const (
 	maxN = 13
 	nDec = 5 // 0 nil, 1 A, 2 B, 3 A' (block A, other part set), 4 C
 	nTS  = 2
+	nVar = 3 // 0 built locally, 1 decoded from goloop's own wire bytes, 2 decoded from wire bytes with the optional NTS list present but empty
 )
 
 var decName = [nDec]string{"nil", "A", "B", "A'", "C"}
 
 type pool struct {
-	votes [maxN][nDec][nTS]*consensus.VoteMessage
-	label map[*consensus.VoteMessage]int
-	psid  [nDec]*consensus.PartSetID
-	rdd   [nDec][]byte
+	votes     [maxN][nDec][nTS][nVar]*consensus.VoteMessage
+	label     map[*consensus.VoteMessage]int
+	vari      map[*consensus.VoteMessage]int
+	wireEmpty int // votes whose decoded NTS list is non-nil and empty
+	psid      [nDec]*consensus.PartSetID
+	rdd       [nDec][]byte
 }
 
 func newPool(r *rand.Rand) *pool {
-	p := &pool{label: map[*consensus.VoteMessage]int{}}
+	p := &pool{label: map[*consensus.VoteMessage]int{}, vari: map[*consensus.VoteMessage]int{}}
 	height := int64(1 + r.Intn(1000000))
 	round := int32(r.Intn(5))
 	nid := uint32(1 + r.Intn(0xffff))
@@ -61,22 +65,51 @@ func newPool(r *rand.Rand) *pool {
 				if err != nil {
 					panic(err)
 				}
-				p.votes[i][d][t] = m
-				p.label[m] = d
+				bs, err := codec.BC.MarshalToBytes(m)
+				if err != nil {
+					panic(err)
+				}
+				m1, err := vote.DecodeVote(bs)
+				if err != nil {
+					panic(err)
+				}
+				bs2, ok := vote.AppendEmptyListElement(bs)
+				if !ok {
+					panic("cannot re-encode vote bytes")
+				}
+				m2, err := vote.DecodeVote(bs2)
+				if err != nil {
+					panic(fmt.Sprintf("vote with empty NTS list not decoded: %v %x", err, bs2))
+				}
+				if m2.NTSVoteBases != nil && len(m2.NTSVoteBases) == 0 && m2.Verify(verifyCtx{}) == nil {
+					p.wireEmpty++
+				}
+				for k, mm := range []*consensus.VoteMessage{m, m1, m2} {
+					p.votes[i][d][t][k] = mm
+					p.label[mm] = d
+					p.vari[mm] = k
+				}
 			}
 		}
 	}
 	for d := 0; d < nDec; d++ {
 		p.psid[d] = decs[d].psid.ID()
-		p.rdd[d] = p.votes[0][d][0].RoundDecisionDigest()
+		p.rdd[d] = p.votes[0][d][0][0].RoundDecisionDigest()
 	}
 	return p
 }
+
+// verifyCtx accepts every network id (VoteMessage.Verify's context).
+type verifyCtx struct{}
+
+func (verifyCtx) ValidNID(uint32) bool { return true }
+func (verifyCtx) NID() int             { return 0 }
 
 type op struct {
 	Idx   int  `json:"slot"`
 	Dec   int  `json:"decision"`
 	TS    int  `json:"ts"`
+	Var   int  `json:"variant"` // 0 local, 1 wire, 2 wire with empty NTS list
 	Check bool `json:"via_checkAndAdd,omitempty"`
 }
 
@@ -88,7 +121,7 @@ func opsString(n int, ops []op) string {
 		if o.Check {
 			ch = "c"
 		}
-		fmt.Fprintf(&sb, "%d%s%d%s,", o.Idx, decName[o.Dec], o.TS, ch)
+		fmt.Fprintf(&sb, "%d%s%d%s%s,", o.Idx, decName[o.Dec], o.TS, []string{"", "w", "e"}[o.Var], ch)
 	}
 	return sb.String()
 }
@@ -121,7 +154,7 @@ func runSeq(c *ev.Ctx, p *pool, n int, ops []op, source string) (st seqStats) {
 			if m == nil {
 				w.Slots = append(w.Slots, "-")
 			} else if d, ok := p.label[m]; ok {
-				w.Slots = append(w.Slots, fmt.Sprintf("%s@t%d", decName[d], int(m.Timestamp-p.votes[0][0][0].Timestamp)))
+				w.Slots = append(w.Slots, fmt.Sprintf("%s@t%d", decName[d], int(m.Timestamp-p.votes[0][0][0][0].Timestamp)))
 			} else {
 				w.Slots = append(w.Slots, "?")
 			}
@@ -135,7 +168,7 @@ func runSeq(c *ev.Ctx, p *pool, n int, ops []op, source string) (st seqStats) {
 	}
 	floor := 2 * n / 3
 	for step, o := range ops {
-		v := p.votes[o.Idx][o.Dec][o.TS]
+		v := p.votes[o.Idx][o.Dec][o.TS][o.Var]
 		var added bool
 		if o.Check {
 			added = vs.CheckAndAdd(o.Idx, v)
@@ -243,6 +276,15 @@ func runSeq(c *ev.Ctx, p *pool, n int, ops []op, source string) (st seqStats) {
 				if cnt[maj] == floor+1 {
 					c.Count("boundary_majority_at_floor_plus_1", 1)
 				}
+				we := 0
+				for i := 0; i < n; i++ {
+					if m := vs.Msg(i); m != nil && p.label[m] == maj && p.vari[m] == 2 {
+						we++
+					}
+				}
+				if we > 0 && cnt[maj]-we <= floor {
+					c.Count("quorums_needing_a_wire_decoded_vote_with_empty_nts_list", 1)
+				}
 			}
 			c.Count("states_with_majority", 1)
 		} else {
@@ -311,7 +353,7 @@ func genSeq(r *rand.Rand) (int, []op, string) {
 	}
 	l := 1 + r.Intn(6*n)
 	ops := make([]op, 0, l)
-	rndOp := func() op { return op{Idx: r.Intn(n), Dec: r.Intn(nDec), TS: r.Intn(nTS)} }
+	rndOp := func() op { return op{Idx: r.Intn(n), Dec: r.Intn(nDec), TS: r.Intn(nTS), Var: r.Intn(nVar)} }
 	strat := r.Intn(5)
 	name := ""
 	switch strat {
@@ -347,7 +389,7 @@ func genSeq(r *rand.Rand) (int, []op, string) {
 			}
 		}
 		for i := 0; i < k && i < n; i++ {
-			ops = append(ops, op{Idx: perm[i], Dec: d, TS: r.Intn(nTS)})
+			ops = append(ops, op{Idx: perm[i], Dec: d, TS: r.Intn(nTS), Var: r.Intn(nVar)})
 			if r.Intn(4) == 0 {
 				ops = append(ops, rndOp())
 			}
@@ -398,6 +440,7 @@ func init() {
 		Rule: "sequences of real signed VoteMessages added to the real consensus.voteSet; every prefix checked. " +
 			"Exhaustive part: all sequences over (slot x {nil,A@t0,A@t1,B}) for (n,len) in quick {(1,6),(2,6),(3,5)}, thorough {(1,7),(2,6),(3,6),(4,5),(4,6),(5,5)}, split over the first cases. " +
 			"Random part: n in 1..13, length up to 6n (+conflict tail), decisions {nil,A,B,A' (block A, other part set),C} x 2 timestamps, strategies uniform / favourite / fill to floor(2n/3) or floor(2n/3)+1 then conflicting re-votes / two camps; some adds through the exported VoteSet.Add (checkAndAdd). " +
+			"Every vote exists in three equivalent forms with one label: built locally, decoded from goloop's own wire bytes (consensus.UnmarshalMessage), decoded from wire bytes whose optional 8th element (NTS vote list) is present but empty (same signature, Verify accepts it); sequences mix the forms (exhaustive: form = (slot+position) mod 3; random: uniform). " +
 			"Oracle after every add: recount of the votes the slots hold now by generator label; report <=> 3*count > 2*n for that label; reported digest/part-set id identify that label; hasOverTwoThirds <=> 3*held > 2*n; a decision that once had +2/3 keeps it; only the addressed slot changes and it holds its old or the new vote. " +
 			"Non-trivial = distinct sequence (n + ops) that reached a +2/3 state and had at least one replacement of a slot's vote.",
 		MinNonTrivial: func(t string) int {
@@ -409,11 +452,13 @@ func init() {
 		Required: []string{"ops_add", "ops_checkAndAdd", "replacements", "replacements_same_decision_other_timestamp",
 			"refused_duplicate", "refused_conflicting", "majority_nil", "majority_block",
 			"boundary_majority_at_floor_plus_1", "boundary_no_majority_at_floor",
-			"conflicting_vote_against_majority_slot", "exhaustive_sequences", "random_sequences"},
+			"conflicting_vote_against_majority_slot", "exhaustive_sequences", "random_sequences",
+			"wire_decoded_votes_with_empty_nts_list", "quorums_needing_a_wire_decoded_vote_with_empty_nts_list"},
 		Assumptions: []string{
 			"a decision is identified by the label the generator gave the vote (block id, part-set id); labels differ in block id or part-set id",
 			"slot contents are read through the verif export hook (voteSet.msgs), not recomputed from goloop's counters",
 			"signatures are not checked by voteSet.add (they are real anyway)",
+			"same decision = same (type, height, round, block id, part-set id, list of NTS votes) with an empty NTS list equal to an absent one, whatever path built the vote",
 		},
 		TimeoutSec: func(t string) int {
 			if t == ev.Thorough {
@@ -429,6 +474,7 @@ func run(c *ev.Ctx) {
 	vote.Quiet()
 	// the pool only fixes keys/ids; behaviour of the vote set does not depend on them
 	p := newPool(rand.New(rand.NewSource(c.CaseSeed(-1))))
+	c.Count("wire_decoded_votes_with_empty_nts_list", p.wireEmpty)
 	nEx := exCases(c.Tier)
 	cfgs := exConfigs(c.Tier)
 	perRand := seqPerRandCase(c.Tier)
@@ -445,7 +491,7 @@ func run(c *ev.Ctx) {
 					for k := 0; k < cfg.l; k++ {
 						s := x % alpha
 						x /= alpha
-						ops[k] = op{Idx: s / 4, Dec: exSym[s%4][0], TS: exSym[s%4][1]}
+						ops[k] = op{Idx: s / 4, Dec: exSym[s%4][0], TS: exSym[s%4][1], Var: (s/4 + k) % nVar}
 					}
 					c.Eval(1)
 					c.Count("exhaustive_sequences", 1)
